@@ -110,9 +110,9 @@ def make_case(ctx, g):
     # half of the cases are biased towards repeated identifiers with overlapping attribute names: that is where
     # unified() -- also called by prov_to_graph and prov_to_dot -- has work to do
     if g.chance(0.5):
-        b = DocBuilder(g, w, repeat_id=0.6, malformed=0.0, anon=0.3, multi=0.3, foreign=0.05, redefault=0.25, defaults=0.5)
+        b = DocBuilder(g, w, repeat_id=0.6, malformed=0.0, anon=0.3, multi=0.3, foreign=0.05, redefault=0.25, defaults=0.5, reinstant=0.3)
     else:
-        b = DocBuilder(g, w, repeat_id=0.25, malformed=0.0)
+        b = DocBuilder(g, w, repeat_id=0.25, malformed=0.0, reinstant=0.3)
     d, scopes = b.random_document(n_records=g.rng.randint(1, 7))
     if g.chance(0.15) and b.cross_kind_cluster(g.choice(scopes)):
         ctx.count("one-identifier-two-merged-kinds")
